@@ -1038,8 +1038,16 @@ func rC16AllDone(w *World, r *Report) {
 		return
 	}
 	for _, f := range factsAt(doneRet.Block()) {
-		if f.Op == token.EQL && f.Y != nil {
-			for _, pair := range [][2]ssa.Value{{f.X, f.Y}, {f.Y, f.X}} {
+		// counter == len, or counter >= len: the counter grows by at most one per vertex of the scan (checked below),
+		// so it never exceeds the table size and the two tests agree
+		if (f.Op == token.EQL || f.Op == token.GEQ || f.Op == token.LEQ) && f.Y != nil {
+			pairs := [][2]ssa.Value{{f.X, f.Y}, {f.Y, f.X}}
+			if f.Op == token.GEQ {
+				pairs = pairs[:1]
+			} else if f.Op == token.LEQ {
+				pairs = pairs[1:]
+			}
+			for _, pair := range pairs {
 				if phi, ok := pair[0].(*ssa.Phi); ok {
 					if c, ok := pair[1].(*ssa.Call); ok && calleeName(c) == "builtin:len" {
 						if _, ok := loadOfFieldNamed(c.Call.Args[0], "Vertices"); ok {
@@ -1147,6 +1155,24 @@ func rC16Launch(w *World, r *Report) {
 						}
 						if isCompletionChan(a.Type()) {
 							hasDone = true
+						}
+						// the channel handed over inside a struct that Run allocates and fills once
+						if pt, ok := a.Type().Underlying().(*types.Pointer); ok {
+							if st, ok := pt.Elem().Underlying().(*types.Struct); ok {
+								if al, ok := resolveLaunched(a).(*ssa.Alloc); ok && al.Parent() == run && al.Referrers() != nil {
+									for _, r := range *al.Referrers() {
+										if fa, ok := r.(*ssa.FieldAddr); ok && isCompletionChan(st.Field(fa.Field).Type()) && fa.Referrers() != nil {
+											for _, r2 := range *fa.Referrers() {
+												if s2, ok := r2.(*ssa.Store); ok {
+													if _, isMake := resolveLaunched(s2.Val).(*ssa.MakeChan); isMake {
+														hasDone = true
+													}
+												}
+											}
+										}
+									}
+								}
+							}
 						}
 					}
 					ru.Check(hasV && hasDone, "launch/arguments", w.IPos(g), "launched with the offered vertex and the completion channel", "a goroutine is launched for a vertex other than the offered one")
